@@ -34,6 +34,11 @@ def big_chain(r0, coin, nblk=3):
                                                                  + [f(x) for x in POOL[:2] for f in (btc.p2pkh, btc.p2sh)] * 2
                                                                  + [btc.p2pk(POOLK), btc.p2sh(btc.hash160(POOLK)), btc.p2pkh(btc.hash160(POOLK))])} for j in range(nout)]
             txs.append({'ver': 1, 'ins': [{'txid': r0.randbytes(32), 'idx': k, 'sig': r0.randbytes(20), 'seq': 0xffffffff}], 'outs': outs, 'lock': k})
+        if h == nblk - 1:
+            # thousands of outputs the evaluator complains about (witness v0 programs of illegal length): the volume of log
+            # records is no input of any figure either
+            txs.append({'ver': 1, 'ins': [{'txid': r0.randbytes(32), 'idx': 0, 'sig': b'', 'seq': 0}],
+                        'outs': [{'val': j, 'spk': b'\x00\x05' + r0.randbytes(5)} for j in range(3000)], 'lock': 0})
         return txs
     return chains.std_chain(nblk, coin, txs_fn=txs_fn)
 
@@ -124,6 +129,11 @@ def main(ck, tier, w):
                 if r.files.get('%s-0-%d.csv' % (f, len(bases[j[4]][1]) - 1)) != data:
                     ck.violation('%s csvdump %s with %d threads differs from the reference rendering' % (j[4], f, j[1]), {'run': j, 'observed': r.brief(), 'tags': []})
                     break
+        if cb == 'simplestats':
+            from checks import c15
+            sp = c15.compare(o, c15.expected_from_ref(list(enumerate(bases[j[4]][1])), j[4]))
+            if sp:
+                ck.violation('%s simplestats with %d threads: %s' % (j[4], j[1], '; '.join(sp[:3])), {'run': j, 'observed': r.brief(), 'tags': []})
         if key not in ref_obs:
             ref_obs[key] = (o, j)
         elif o != ref_obs[key][0]:
@@ -228,16 +238,18 @@ def main(ck, tier, w):
     ovals = [2 ** 63 + 11, 2 ** 63 + 22, 7, 2 ** 64 - 1, 5]
     oblocks = chains.std_chain(len(ovals), coin, txs_fn=lambda h, c: [btc.coinbase(h, None, outs=[{'val': ovals[h], 'spk': addr}, {'val': 50 * 10 ** 8, 'spk': btc.p2pkh(b'\x22' * 20)}])])
     od = datadir.simple_dir(w.sub('dd'), oblocks, coin).write()
-    for cb, end in (('balances', 1), ('balances', 2), ('balances', None), ('unspentcsvdump', None)):
+    # (arithmetic beyond u64 is outside the domain of C08 and differs between build profiles - abort vs wrap -, so the profile is
+    # fixed per group of runs)
+    for cb, end, rel in (('balances', 1, False), ('balances', 2, True), ('balances', None, False), ('balances', None, True), ('unspentcsvdump', None, True)):
         def orun(i):
             dd = w.sub('cl')
             shutil.copytree(od, dd)
-            r = run.run_parser(dd, cb, dump=w.mk('out'), end=end, threads=[1, 4, 16][i % 3])
+            r = run.run_parser(dd, cb, dump=w.mk('out'), end=end, threads=[1, 4, 16][i % 3], release=rel)
             shutil.rmtree(dd, ignore_errors=True)
             return r
-        rs = chains.pmap(orun, range(10 if quick else 40), 5)
+        rs = chains.pmap(orun, range(8 if quick else 40), 5)
         ck.evals(len(rs))
-        ck.distinct(('overflow', cb, end))
+        ck.distinct(('overflow', cb, end, rel))
         variants = {(r.rc, tuple(sorted((k, tuple(sorted(v.splitlines()))) for k, v in r.files.items()))) for r in rs}
         if len(variants) != 1:
             ck.violation('%d runs of %s over one data directory in which the outputs of one address add up to more than 2^64 gave %d different results'
